@@ -677,7 +677,7 @@ impl Engine for WireEngine {
                 "text handed to &str entry points is obtained with String::from_utf8_lossy (a lossy reader); JSON documents are parsed from raw bytes (serde_json::from_slice) as the HTTP stack does".into(),
                 "overflow checks and debug assertions are ON (sim profile): an arithmetic overflow that a default release build would wrap silently is reported as a violation because the statement forbids it; each replay file says which it is".into(),
                 "allocation monitor: largest single request <= 64 x input length + 1 MiB and peak live bytes <= 256 x input length + 8 MiB per decode; a request above 256 MiB is never served (the requesting thread is parked and the case reported), so Vec::with_capacity and vec![0; n] are observed alike".into(),
-                "decodes run in forked child processes: an abort / stack overflow / kill of the child is reported as process-death for the exact case; a decode that does not return within 120 s wall clock (10 s once a hang has been seen in the process) is killed and reported as unbounded-loop (the only wall-clock dependency; a case takes < 10 ms); inputs are < 128 KiB".into(),
+                "decodes run in forked child processes: an abort / stack overflow / kill of the child is reported as process-death for the exact case; a decode that does not return within 30 s wall clock (5 s once a hang has been seen in the process) is killed and reported as unbounded-loop (the only wall-clock dependency; a case takes < 10 ms); inputs are < 128 KiB".into(),
                 "built without the future_snark feature (the default of every node crate): SNARK proof / key decoders are not compiled and not covered".into(),
                 "decoders only: verify() of a decoded-but-damaged proof or signature is not called".into(),
                 "ProtocolInitializer (signer-local secret) decoders are exercised as probes only (counters probe_outside_statement_*), never as violations: the statement is about data supplied by another node".into(),
@@ -714,6 +714,9 @@ impl Engine for WireEngine {
             let sets: Vec<Arc<HonestSet>> =
                 cfgs.iter().map(|c| Arc::new(HonestSet::build(c))).collect();
             let empty = Vec::new();
+            if doc.to_string().contains("\"unbounded-loop\"") {
+                exec::expect_hang();
+            }
             for case in doc.get("cases").and_then(Value::as_array).unwrap_or(&empty) {
                 let set = &sets[(case["set"].as_u64().unwrap_or(0) as usize).min(sets.len() - 1)];
                 let ex = Exec { set };
